@@ -6,6 +6,7 @@ import Mercure.Model.Publish
 import Mercure.Model.Subscribe
 import Mercure.Model.Hub
 import Mercure.Model.Retention
+import Mercure.Model.Sys
 import Mercure.Generated.Facts
 import Std.Data.HashMap
 /-
@@ -51,6 +52,7 @@ structure DSt where
   sfSubs : Std.HashMap Nat SubSpec := {}
   sfIds  : Std.HashMap Nat Nat := {}     -- harness label ↦ skipfilter id
   hub    : HubSt := { cfg := {}, kind := .local }
+  sys    : Sys.Sys := Sys.Sys.init Sys.Flags.found .bolt 0 [] []
   ret    : RSt := {}
   retSize : Nat := 0
 
@@ -102,9 +104,70 @@ def showDoc (d : Subscription) : String :=
 def showApi (r : ApiResp) : String :=
   s!"{r.status} last={hex r.lastEventID} docs={";".intercalate (r.docs.map showDoc)}"
 
+namespace SysShow
+open Mercure.Sys
+def resp : Resp → String | .earliest => "earliest" | .id n => s!"u{n}"
+def upds (l : List Upd) : String := ",".intercalate (l.map (fun u => s!"u{u.id}"))
+def ret : Ret → String
+  | .ok => "ok" | .errClosed => "closed" | .errDb => "dberr"
+  | .listed l ss => s!"listed:{resp l}:{",".intercalate (ss.map toString)}"
+  | .got (some u) _ => s!"got:u{u.id}" | .got none o => s!"got:-:{showBool o}"
+def threadLabel (σ : Sys.Sys) (t : Thread) : String :=
+  match t.stack with
+  | fr :: _ => fr.label σ.flags σ.tr.kind
+  | [] => "done:" ++ (match t.ret with | some r => ret r | none => "?")
+def sub (b : Sub) : String :=
+  s!"recv=[{upds b.received}] out=[{upds b.out}] closed={showBool b.outClosed} disc={showBool b.disconnected} ready={showBool b.ready} lq=[{upds b.liveQueue}] resp={match b.resp with | some r => resp r | none => "-"}"
+def obs (σ : Sys.Sys) : String :=
+  s!"subs={";".intercalate (σ.subs.map sub)} index={",".intercalate (σ.tr.index.map toString)} db={",".intercalate (σ.tr.db.map (fun e => s!"{e.1}:u{e.2.id}"))} last={resp σ.tr.lastId} lastSeq={σ.tr.lastSeq} closed={showBool σ.tr.closedCh} panic={match σ.panic with | some p => p | none => "-"}"
+end SysShow
+
+def parseFlags (s : String) : Option Sys.Flags :=
+  match s.toList.map (· == '1') with
+  | [a, b, c, d, e, f] => some ⟨a, b, c, d, e, f⟩
+  | _ => none
+
+def natList (s : String) : List Nat := if s == "-" then [] else (s.splitOn ",").filterMap String.toNat?
+
 def step (st : DSt) (line : String) : DSt × String :=
   let M := matchSpec st.oracle.toT
   match line.splitOn "\t" with
+  | ["sys.new", kind, size, flags] =>
+    match size.toNat?, (if flags == "facts" then some Facts.sysFlags else parseFlags flags) with
+    | some sz, some fl => ({ st with sys := Sys.Sys.init fl (if kind == "bolt" then .bolt else .local) sz [] [] }, "ok")
+    | _, _ => (st, "bad-op")
+  | ["sys.sub", topics, req, cap] =>
+    match cap.toNat? with
+    | some c =>
+      let r : Sys.Req := if req == "-" then .none else if req == "e" then .earliest else .id (req.toNat?.getD 0)
+      ({ st with sys := { st.sys with subs := st.sys.subs ++ [{ topics := natList topics, req := r, cap := c }] } }, "ok")
+    | none => (st, "bad-op")
+  | "sys.op" :: op :: args =>
+    let o : Option Sys.Op := match op, args.map String.toNat? with
+      | "dispatch", [some id, some tp] => some (.dispatch ⟨id, tp⟩)
+      | "add", [some s] => some (.add s) | "remove", [some s] => some (.remove s)
+      | "close", [] => some .close | "list", [] => some .list
+      | "disconnect", [some s] => some (.disconnect s) | "recv", [some s] => some (.recv s)
+      | _, _ => none
+    match o with
+    | some o => ({ st with sys := { st.sys with threads := st.sys.threads ++ [{ op := o, stack := o.start }] } }, "ok")
+    | none => (st, "bad-op")
+  | ["sys.labels"] => (st, " ".intercalate (st.sys.threads.map (SysShow.threadLabel st.sys)))
+  | ["sys.step", i] =>
+    match i.toNat? with
+    | some i =>
+      let r := Sys.step st.sys i
+      let lbl := match r.σ.threads[i]? with | some t => SysShow.threadLabel r.σ t | none => "?"
+      ({ st with sys := r.σ }, s!"moved={showBool r.moved} next={lbl} panic={match r.σ.panic with | some p => p | none => "-"}")
+    | none => (st, "bad-op")
+  | ["sys.runall"] =>
+    -- sequential set-up: run every thread to completion, in order
+    let n := st.sys.threads.length
+    let σ := (List.range n).foldl (fun σ i => (List.range 400).foldl (fun σ _ => (Sys.step σ i).σ) σ) st.sys
+    ({ st with sys := { σ with threads := [] } }, "ok")
+  | ["sys.restart"] => ({ st with sys := Sys.restart st.sys [] [] }, "ok")
+  | ["sys.clear"] => ({ st with sys := { st.sys with subs := [], threads := [] } }, "ok")
+  | ["sys.obs"] => (st, SysShow.obs st.sys)
   | ["ret.new", size] =>
     match size.toNat? with
     | some sz => ({ st with ret := {}, retSize := sz }, "ok")
